@@ -3,12 +3,12 @@
 package parser
 
 // VerifLexerStateCount returns the number of live entries in the process-global
-// lexer state map (simulation builds only). It walks the map instead of trusting its
-// element counter, which drifts under concurrent Set/Del.
+// lexer state map (simulation builds only).
 func VerifLexerStateCount() int {
 	n := 0
-	for range lexerStates.Iter() {
+	lexerStates.Range(func(_, _ interface{}) bool {
 		n++
-	}
+		return true
+	})
 	return n
 }
